@@ -16,7 +16,7 @@ def run(ctx):
     ctx.clause = ("(a) with a failed load (null corpus / group / translation unit) abidiff and abicompat can only "
                   "exit with the ERROR bit; (b) the dwarf loader never pairs a null corpus with STATUS_OK; (c) the "
                   "ABIXML reader returns a non-null result only after a null-checked full expansion of the root node")
-    ctx.rules = ["R-LOADFAIL", "R-LOADFAIL/L2", "R-EXPAND"]
+    ctx.rules = ["R-LOADFAIL", "R-LOADFAIL/L2", "R-EXPAND", "R-XMLSRC"]
     n_sites = 0
     for tool in ("abidiff", "abicompat"):
         P, I, main, rets = sr.analyse_tool(ctx, tool)
@@ -25,4 +25,59 @@ def run(ctx):
     P = ctx.program(["src/abg-dwarf-reader.cc"] + sr.LIB_UNITS)
     sr.check_L2(ctx, P)
     expand_rule.run(ctx)
+    check_xmlsrc(ctx)
     ctx.assume("libxml2's xmlTextReaderExpand fails on any unterminated subtree; elfutils reports unreadable ELF through the status the dwarf reader tests")
+
+
+
+def check_xmlsrc(ctx):
+    """R-XMLSRC: the readers of ABIXML get their documents from libxml2's *pull* reader (xmlNewTextReaderFilename /
+    xmlReaderForIO / xmlReaderForMemory), whose Expand() fails on an unterminated document - the assumption R-EXPAND
+    rests on.  Who-may-call + typestate: (a) every xml::new_reader_from_* factory returns one of those constructors'
+    results; (b) if a push parser (xmlCreatePushParserCtxt) is used anywhere in the library, every path from its
+    creation to a read of its `wellFormed` / `myDoc` passes an xmlParseChunk(..) whose `terminate` argument is a
+    non-zero literal - a termination that depends on a run-time condition (eof() of the last read) leaves a truncated
+    document looking complete."""
+    from engine.facts import walk, call_args, expr_str
+    from engine.cfg import strip_casts
+    from engine.compdb import AnalysisBroken
+    from rules.idref_rule import _passes_on_all_paths, _on_all_paths_before
+    P = ctx.program(["src/abg-libxml-utils.cc", "src/abg-reader.cc"])
+    PULL = ("xmlNewTextReaderFilename", "xmlReaderForIO", "xmlReaderForMemory", "xmlReaderForFd", "xmlReaderForFile")
+    facts_ = [f for f in P.all_funcs() if f.q.startswith("abigail::xml::new_reader_from_") and not f.dep and
+              "anonymous" not in f.q and f.n.startswith("new_reader_from_")]
+    ctx.floor("R-XMLSRC", "xml::new_reader_from_* factories", len(facts_), 3)
+    for f in sorted(facts_, key=lambda x: x.q):
+        ctx.analysed(f)
+        names = {(f.decl(n) or {}).get("n") for n in f.nodes() if n["k"] == "CallExpr"}
+        pull = sorted(names & set(PULL))
+        other = sorted(n for n in names if n and n.startswith("xml") and n not in PULL and
+                       n not in ("xmlFreeTextReader",) and ("Reader" in n or "Parse" in n or "Ctxt" in n))
+        push = "xmlCreatePushParserCtxt" in names      # decided by the typestate clause below
+        ctx.ob("R-XMLSRC", "%s builds its reader with a libxml2 pull-reader constructor (or a terminated push parser)" % f.q.replace("abigail::", ""),
+               (bool(pull) and not other) or push, f.loc(),
+               "constructor(s): %s" % pull if pull and not other else
+               "the reader is built through %s: the pull reader's own end-of-document check (Expand fails on an "
+               "unterminated subtree) no longer protects the caller" % (other or "something else"))
+    for f in P.all_funcs():
+        if f.dep or f.cfg() is None:
+            continue
+        creates = [n for n, d in f.calls() if d["n"] in ("xmlCreatePushParserCtxt", "htmlCreatePushParserCtxt")]
+        for c in creates:
+            ctx.analysed(f)
+
+            def terminating(e):
+                if e["k"] != "CallExpr" or (f.decl(e) or {}).get("n") != "xmlParseChunk":
+                    return False
+                a = call_args(e)
+                t = strip_casts(a[3]) if len(a) > 3 else None
+                return t is not None and t["k"] == "IntegerLiteral" and t.get("v") not in (0, None)
+            uses = [x for x in f.nodes() if x["k"] == "MemberExpr" and (f.decl(x) or {}).get("n") in ("wellFormed", "myDoc")]
+            if not uses:
+                raise AnalysisBroken("%s creates a push parser but never reads wellFormed / myDoc" % f.q)
+            ok = all(_on_all_paths_before(f, x, terminating) for x in uses)
+            ctx.ob("R-XMLSRC", "%s: the push parser is terminated on every path" % f.n, ok, f.loc(c),
+                   "xmlParseChunk(.., terminate = 1) follows on every path" if ok else
+                   "no unconditional xmlParseChunk(.., terminate = 1): when the condition computed at run time is false (a "
+                   "file whose size is a multiple of the block size) the parse is never finished, `wellFormed` stays set and a "
+                   "truncated document is accepted")
